@@ -75,14 +75,25 @@ DECL_FULL = [[], [1, 3], [2, 4], [3]]
 def gen(run):
     thorough = run.tier == "thorough"
     hs = []
-    # exhaustive: every initial workspace over a small pool x every single update (and pairs, thorough)
+    # exhaustive: every initial workspace over a small pool x every single update.  A pool of m contents per file gives
+    # m^3 initial workspaces x 3m updates: m = 12 -> 62 208 histories (measured; m = 48 would be 15.9 million and does not
+    # fit in memory).  quick samples 2 500 of the first pool; thorough replays two pools in full: plain include sets, and
+    # include sets with a self-include, a missing target and a two-file fan-out.
     incl3 = [[], [2], [3], [2, 3], [1], [0, 3]]
-    r = run.tlc("MCWorkspace", cfg(3, 1), workers=8, timeout=2400,
-                extra_modules={"MCWorkspace": mc_module(3, incl3 if thorough else incl3[:4], TXS_SMALL[:3] if not thorough else TXS_SMALL, [[]] if not thorough else [[], [1, 3]])})
-    ex = r.json
-    if not thorough and len(ex) > 2500:
-        ex = run.rng.sample(ex, 2500)
-    hs += [("exh3_1", x) for x in ex]
+    pools = [("exh3_1", incl3[:4])] + ([("exh3_1x", [[], [1], [0, 3], [2, 3]])] if thorough else [])
+    for fam, incl in pools:
+        r = run.tlc("MCWorkspace", cfg(3, 1), workers=8, timeout=2400,
+                    extra_modules={"MCWorkspace": mc_module(3, incl, TXS_SMALL[:3], [[]])})
+        ex = r.json
+        if not thorough and len(ex) > 2500:
+            ex = run.rng.sample(ex, 2500)
+        hs += [(fam, x) for x in ex]
+    if thorough:
+        # declarations and a fourth transaction list: sampled from the pool of 4 x 4 x 2 = 32 contents per file
+        # (32^3 x 96 = 3.1 million histories) by simulation, one update each
+        r = run.tlc("MCWorkspace", cfg(3, 1), mode="simulate", simulate=20000, depth=2, workers=1, timeout=2400,
+                    extra_modules={"MCWorkspace": mc_module(3, incl3[:2] + incl3[3:5], TXS_SMALL, [[], [1, 3]])})
+        hs += [("sim3_1", x) for x in r.json]
     # simulation: long histories, 4 files, full menus
     incl4 = [[], [2], [3], [4], [2, 3], [3, 4], [2, 4], [1], [0], [2, 0]]
     plans = [(4, 8, 400)] if not thorough else [(4, 8, 6000), (3, 8, 3000), (4, 12, 1500)]
